@@ -13,6 +13,7 @@ package main
 //	which=3..8  threshold-crossing streams, see thresholds.go
 //	which=9     the redis backend against a fake RESP server, see redis.go
 //	which=10    which=4 with time_field "" / limiter_key_field on the instances >= 1 (thresholds.go)
+//	which=11    rules with their own limit_distribution on a Plugin started through the public API (ruledistr.go)
 
 import (
 	"fmt"
@@ -173,6 +174,8 @@ func c16Exec(which int, cs hx.Sx) hx.Sx {
 		return exec9(cs)
 	case 10:
 		return exec10(cs)
+	case 11:
+		return exec11(cs)
 	}
 	panic("c16: unknown which")
 }
@@ -571,6 +574,8 @@ func c16Gen(c *hmain.Ctx) {
 		{"shares-many", genSharesMany}, {"shares-ratio", genSharesRatio}, {"shares-sum", genSharesSum},
 		// coverage round: options and backends of the anchored files no older stream reached
 		{"no-time-field", genNoTimeField}, {"redis", genRedis},
+		// round 5: rules that carry their own limit_distribution (ruledistr.go)
+		{"rule-distr", genRuleDistr},
 	}
 	for _, g := range gens {
 		if on(g.name) {
@@ -589,6 +594,6 @@ func c16Gen(c *hmain.Ctx) {
 
 func main() {
 	hmain.Run(&hmain.Prop{ID: "C16",
-		Rule: "exhaustive: every op sequence of the tier's length over a 12-point (clock, event time[, size | value]) domain for count/size/distributed limiters; random histories (5-60 ops, clock jumps across 0..3 windows and backwards, past/future/out-of-order event times, limits 0..5, both kinds, 0..3 ratios); adversarial (0 buckets, unlimited, clock inside the first window / before the epoch, extreme event times); whole plugin with rules and keys (0-3 rules, and lists of 25-60 rules whose keys recur under rules 26, 27 and 32 positions apart); parseLimitDistribution; threshold streams: 250-300 rules (rule index byte wraps at 256), run-length histories of thousands of ops with limits 5000 / 2^40 and 60-300 buckets, 2-4 Plugin instances sharing one pipeline's limiters map in sequence and concurrently, time fields that overflow UnixNano / are zero / do not parse, limiter expiry on the real clock, distribution ratios finer than a percent with 5-20 ratios and totals up to 2^60; coverage round: instances without time field and with a limiter key field, time format given as a layout, distribution field without ratios, metric labels, and the redis backend against a fake RESP server (events, syncs in key order / by the real runSync / with an event arriving inside the sync, limit keys as text and JSON with valid and invalid distributions, limits file saved, reloaded, empty; dead endpoint with base / ring / cluster client). Non-trivial = inside the property's domain (buckets >= 1, limit >= 0); distinct = distinct (sub-model, case) text.",
+		Rule: "exhaustive: every op sequence of the tier's length over a 12-point (clock, event time[, size | value]) domain for count/size/distributed limiters; random histories (5-60 ops, clock jumps across 0..3 windows and backwards, past/future/out-of-order event times, limits 0..5, both kinds, 0..3 ratios); adversarial (0 buckets, unlimited, clock inside the first window / before the epoch, extreme event times); whole plugin with rules and keys (0-3 rules, and lists of 25-60 rules whose keys recur under rules 26, 27 and 32 positions apart); parseLimitDistribution; threshold streams: 250-300 rules (rule index byte wraps at 256), run-length histories of thousands of ops with limits 5000 / 2^40 and 60-300 buckets, 2-4 Plugin instances sharing one pipeline's limiters map in sequence and concurrently, time fields that overflow UnixNano / are zero / do not parse, limiter expiry on the real clock, distribution ratios finer than a percent with 5-20 ratios and totals up to 2^60; coverage round: instances without time field and with a limiter key field, time format given as a layout, distribution field without ratios, metric labels, and the redis backend against a fake RESP server (events, syncs in key order / by the real runSync / with an event arriving inside the sync, limit keys as text and JSON with valid and invalid distributions, limits file saved, reloaded, empty; dead endpoint with base / ring / cluster client); rules with conditions + their own limit + their own limit_distribution on a Plugin started through the public API (rule limit below / above / equal to default_limit, count and size kinds, plugin-level distribution on the default rule, bursts past every specified share; judged by the reference semantics with share = round(ratio x the matching rule's limit)). Non-trivial = inside the property's domain (buckets >= 1, limit >= 0); distinct = distinct (sub-model, case) text.",
 		Gen:  c16Gen, Exec: c16Exec})
 }
